@@ -153,7 +153,10 @@ class G:
         return self.pick(first_alphabet) + self.chars(LOW if self.p(0.8) else body, 0, 6)
 
     def account(self) -> Piece:
-        if self.p(0.6):
+        if self.p(0.04):
+            # account types that begin like a keyword of another terminal (BOOL, NULL): still accounts
+            root = self.pick(['TRUE', 'FALSE', 'NULL', 'TRUEhood', 'NULLé', 'FALSE-X'])
+        elif self.p(0.6):
             root = self.pick(['Assets', 'Liabilities', 'Equity', 'Income', 'Expenses'])
         else:
             root = self._acc_seg(UP)
